@@ -640,6 +640,9 @@ declaratortypes(struct scope *s, struct list *result, char **name, struct scope 
 				if (tok.kind == TRPAREN)
 					break;
 				d = parameter(s);
+				/* 6.7.6.3p10: void is only allowed as the sole, unnamed parameter */
+				if (d->type->kind == TYPEVOID && (d->name || t->u.func.nparam || tok.kind != TRPAREN))
+					error(&tok.loc, "parameter has type 'void'");
 				if (d->name) {
 					if (scopegetdecl(s, d->name, false))
 						error(&tok.loc, "parameter '%s' redeclared", d->name);
